@@ -50,7 +50,7 @@ def loader_job(frames, group, skip_findings):
     d = {"FRAMES": frames}
     if skip_findings: d["VF_SKIP_FINDINGS"] = 1
     return Job(name=f"L2.loader.F{frames}", group=group, harness="harness/C11_loader.c", defines=d, real=["dbus/dbus-list.c"], env=["assert_stubs.c", "pool_lock.c", "memfuncs.c"],
-               checks="assert", unwind=6, timeout=1800, mem_gb=20,
+               checks="assert", unwind=6, unwindset=["memmove.0:40", "memmove.1:40", "memcpy.0:40"], timeout=1800, mem_gb=20,
                encodes=["_dbus_message_loader_queue_messages", "load_message", "dbus_message_new_empty_header", "dbus_message_unref", "dbus_message_cache_or_finalize"],
                stubs=["DBusString = length-only ghost", "_dbus_header_have_message_untrusted / _dbus_header_load / _dbus_validate_body_with_reason = symbolic outcomes under the contracts of C01.a / C01.b"],
                assumes=["framing stub obeys C01.a: complete only if header+body bytes are buffered, header length >= 16 and a multiple of 8"],
